@@ -9,7 +9,7 @@ use crate::common::*;
 use crate::dom::*;
 use crate::engine::*;
 use crate::model::carrier_flows;
-use crate::tol::tol;
+use crate::tol::{tol, EPS32};
 use crate::{ensure, fail};
 
 pub struct C01;
@@ -18,8 +18,9 @@ fn v64(v: &[f32]) -> Vec<f64> {
     v.iter().map(|x| *x as f64).collect()
 }
 
-pub fn check_carrier(car: Car, b: &BalanceCarrier, n: usize, s: f64, ctx: &mut Ctx) -> CheckResult {
-    let t = tol(s, n);
+pub fn check_carrier(car: Car, b: &BalanceCarrier, n: usize, n_sum: usize, s: f64, ctx: &mut Ctx) -> CheckResult {
+    // n_sum: steps plus the lines beyond 64 (length of the f32 summation chains)
+    let t = tol(s, n_sum);
     let nm = car.name();
     let vecs: [(&str, &Vec<f32>); 9] = [
         ("used.epus_t", &b.used.epus_t),
@@ -51,11 +52,18 @@ pub fn check_carrier(car: Car, b: &BalanceCarrier, n: usize, s: f64, ctx: &mut C
         let us = b.used.epus_t[i] as f64;
         let nus = b.used.nepus_t[i] as f64;
         let dg = b.del.grid_t[i] as f64;
+        // the identities of one step involve that step's quantities only (element-wise f32 arithmetic), so their
+        // tolerance is a number of ulps of the step's own magnitude - not of the carrier's annual scale, under which
+        // a whole step of a few kWh would disappear next to a step of 1e7 kWh
+        let t = t.min(64.0 * EPS32 * (pr.abs() + us.abs() + nus.abs() + b.used.cgnus_t[i].abs() as f64) + 1e-9);
         ensure!((pr - (pu + ex)).abs() <= t, "prod=used+exp", "{nm}[{i}]: prod {pr} != used {pu} + exported {ex}");
         ensure!((ex - (exn + exg)).abs() <= t, "exp=nepus+grid", "{nm}[{i}]: exported {ex} != nEPB {exn} + grid {exg}");
         ensure!((us - (pu + dg)).abs() <= t, "use=used+del", "{nm}[{i}]: EPB use {us} != produced-and-used {pu} + delivered {dg}");
         ensure!(pu <= us.min(pr) + t, "used<=min", "{nm}[{i}]: produced-and-used {pu} > min(use {us}, prod {pr})");
         ensure!(exn <= nus + t, "exp_nepus<=nepus", "{nm}[{i}]: exported to nEPB {exn} > nEPB use {nus}");
+        for (name, x) in [("prod.epus_t", pu), ("exp.t", ex), ("exp.nepus_t", exn), ("exp.grid_t", exg), ("del.grid_t", dg)] {
+            ensure!(x >= -t, "nonneg", "{nm}.{name}[{i}] = {x:e} < 0 (step tolerance {t:e})");
+        }
         if pr > 0.0 && us > 0.0 {
             if pr < us {
                 r_lt = true;
@@ -85,6 +93,7 @@ pub fn check_carrier(car: Car, b: &BalanceCarrier, n: usize, s: f64, ctx: &mut C
         ensure!(pj.len() == n && uj.len() == n && ej.len() == n, "lengths", "{nm}.{sn} per-source vectors");
         for i in 0..n {
             let (p, u, e) = (pj[i] as f64, uj[i] as f64, ej[i] as f64);
+            let t = t.min(64.0 * EPS32 * (b.prod.t[i].abs() as f64 + b.used.epus_t[i].abs() as f64 + b.used.nepus_t[i].abs() as f64) + 1e-9);
             ensure!((p - (u + e)).abs() <= t, "src:prod=used+exp", "{nm}.{sn}[{i}]: prod {p} != used {u} + exported {e}");
             ensure!(u >= -t && e >= -t, "src:nonneg", "{nm}.{sn}[{i}]: used {u:e}, exported {e:e}");
             sum_pu[i] += u;
@@ -108,6 +117,7 @@ pub fn check_carrier(car: Car, b: &BalanceCarrier, n: usize, s: f64, ctx: &mut C
         }
     }
     for i in 0..n {
+        let t = t.min(64.0 * EPS32 * (b.prod.t[i].abs() as f64 + b.used.epus_t[i].abs() as f64 + b.used.nepus_t[i].abs() as f64) + 1e-9);
         ensure!((sum_pu[i] - b.prod.epus_t[i] as f64).abs() <= t, "sum_src(used)=used", "{nm}[{i}]: Σ_j used_j {} != used {}", sum_pu[i], b.prod.epus_t[i]);
         ensure!((sum_ex[i] - b.exp.t[i] as f64).abs() <= t, "sum_src(exp)=exp", "{nm}[{i}]: Σ_j exp_j {} != exp {}", sum_ex[i], b.exp.t[i]);
         ensure!((sum_pr[i] - b.prod.t[i] as f64).abs() <= t, "sum_src(prod)=prod", "{nm}[{i}]: Σ_j prod_j {} != prod {}", sum_pr[i], b.prod.t[i]);
@@ -196,7 +206,8 @@ impl Prop for C01 {
             // inputs faithfully accumulated (recomputed from the component list)
             let m = carrier_flows(car, &inp.lines, n, c.lm);
             let s = m.s_energy;
-            let t = tol(s, n);
+            let n_sum = n + inp.lines.len().saturating_sub(64);
+            let t = tol(s, n_sum);
             for i in 0..n {
                 ensure!((b.used.epus_t[i] as f64 - m.epus_t[i]).abs() <= t, "inputs", "{}[{i}]: EPB use {} != Σ lines {}", car.name(), b.used.epus_t[i], m.epus_t[i]);
                 ensure!((b.used.nepus_t[i] as f64 - m.nepus_t[i]).abs() <= t, "inputs", "{}[{i}]: nEPB use {} != Σ lines {}", car.name(), b.used.nepus_t[i], m.nepus_t[i]);
@@ -213,7 +224,7 @@ impl Prop for C01 {
                 }
             }
             ensure!(b.prod.by_src_t.len() == m.pr_by_src_t.len(), "inputs", "{}: invented production source", car.name());
-            check_carrier(car, b, n, s, ctx)?;
+            check_carrier(car, b, n, n_sum, s, ctx)?;
         }
         Ok(())
     }
